@@ -14,7 +14,7 @@ import (
 
 func init() {
 	register(&Property{
-		ID: "C16",
+		ID:          "C16",
 		Explanation: "Decided structurally: for each of the five rpc type bytes the Go type the sender encodes equals the type the receiver decodes for that byte, which has a case in Raft.processRPC, and the response type the sender decodes into equals the type that RPC's handler passes to Respond; every type byte has a receiver case and unknown bytes are an error; frame order agrees on both sides (type byte ≺ request ≺ flush | read byte ≺ decode request; error string ≺ response | decode string ≺ decode response), InstallSnapshot streams its body after the request and before reading the response on a connection that is always released, the receiver limits its reader to req.Size on the very buffered reader the decoder uses; every struct that crosses the codec has only exported, untagged fields of encodable kinds (recursively); a connection is returned to the pool only when both response decodes succeeded and is released on every encode/decode error; each pipeline has exactly one decoder goroutine, requests are written before being queued, responses are decoded into the queued future's own response object and delivered in queue order, and the pipeline's send side has a single caller chain.",
 		NotDecided:  "value round-trip through the msgpack library (that every field value decodes equal to what was encoded), TCP behaviour, and timing (deadlines).",
 		Assumptions: []string{"go-msgpack encodes every exported untagged field and decodes it back", "a bufio.Reader shared between the decoder and the LimitReader delivers bytes in order"},
@@ -44,7 +44,9 @@ func c16R6(c *Ctx, rule string) {
 			"dec": func(d string) bool {
 				return strings.Contains(d, "codec.NewDecoder(bufio.NewReader(recv.stream.Dial(p1, recv.timeout)#0)")
 			},
-			"w":   func(d string) bool { return strings.HasPrefix(d, "bufio.NewWriterSize(recv.stream.Dial(p1, recv.timeout)#0,") || d == "bufio.NewWriter(recv.stream.Dial(p1, recv.timeout)#0)" },
+			"w": func(d string) bool {
+				return strings.HasPrefix(d, "bufio.NewWriterSize(recv.stream.Dial(p1, recv.timeout)#0,") || d == "bufio.NewWriter(recv.stream.Dial(p1, recv.timeout)#0)"
+			},
 			"enc": func(d string) bool { return strings.Contains(d, "codec.NewEncoder(new(netConn).w,") },
 		}
 		var names []string
@@ -589,7 +591,7 @@ func c16R3(c *Ctx, rule string) {
 		c.RequireAt(r, rule, "genericRPC:response-only-after-request", s.Instr, "the response is read only after the request was written without error", func(v engine.View) bool { return v.Seen("sent") && v.F("sendErr") })
 	}
 	// the error delivered is the decoded error, the response object the caller's
-	for _, ret := range engine.ReturnsOf(fn) {
+	for _, ret := range engine.RawReturnsOf(fn) {
 		d := c.P.D(engine.ReturnValues(ret)[0])
 		ok := strings.HasPrefix(d, "decodeResponse(") || strings.HasPrefix(d, "sendRPC(") || strings.HasPrefix(d, "recv.getConnFromAddressProvider(")
 		c.Check(rule, "genericRPC:error-passthrough", c.P.InstrPos(ret), "the caller gets the error of the step that failed (or the remote error string), unchanged", ok, "returns "+d, 1)
